@@ -54,6 +54,10 @@ CLAIMED = {
  'C20': dict(engine = 'symx', technique = 'symbolic execution of real perdictable / join / _join_dictable_with_defaults (and dictable.join/xor/sort below them) with z3 over symbolic keys, values and expiry offsets; counterexample replay',
              text = 'For 2 inputs, each a scalar or a table of <= 2 rows over symbolic distinct int keys (one or two key columns), with or without a default, the solver decides: scalars return f itself; tables give one row per key present in every table input, sorted by key, value = f of that key\'s values, f called exactly once per row; a defaulted input is outer-joined; with cached values and expiries (past / future / None / absent, any key overlap and order) expired cached rows keep their value with no call, all other rows are recomputed exactly once and no stale key appears.',
              note = 'Trusted: z3, CPython, proxies. Keys within one input are assumed distinct; today is the real clock, expiries are symbolic non-zero day offsets from it (expiry == today is outside the statement and not claimed); dict-output functions, renames and 3-4 table inputs are not explored.'),
+
+ 'C18': dict(engine = 'symx', technique = 'symbolic execution of the real wrapper classes, getcallargs/call_with_callargs and cache over exec-generated signatures, with solver-chosen call splits and symbolic argument values (z3); counterexample replay',
+             text = 'For every signature with 0..3 positional parameters (thorough 4), any trailing defaults, with/without *args and **kwargs, and every valid call (positional/keyword split, supplied defaults, extra positionals and keywords chosen by the solver, values symbolic): each decorator and every stack of two (thorough three) returns what f returns, reports f\'s argspec and does not double wrap; getcallargs agrees with inspect.getcallargs and call_with_callargs round-trips; try_* fall back exactly when f raises; kwargs_support drops exactly the undeclared keywords; a cached function is evaluated once per distinct argument combination over histories of <= 3 calls.',
+             note = 'Trusted: z3, CPython, proxies, inspect.getcallargs as oracle. f returns the tuple of its whole binding; cache histories use arguments from {0,1} (equalities are the solver\'s choice); keyword-only parameters, timer/do_if/kwpartial are not explored.'),
 }
 NA = {}
 TODO = 'check not built yet in this session (work in progress); will be decided by symbolic execution of the real code as described in DESIGN.md'
